@@ -107,7 +107,12 @@ class PersistentMixin(Module):
             try:
                 pobj = self.parameters[pname]
                 if getattr(pobj, 'persistent', False):
-                    result[pname] = self.parameters[pname].datatype.import_value(value)
+                    datatype = pobj.datatype
+                    # an entry is only usable when it is valid for the current definition
+                    # of the parameter and can be stored again
+                    imported = datatype.validate(datatype.import_value(value))
+                    datatype.export_value(imported)
+                    result[pname] = imported
             except Exception as e:
                 # ignore invalid persistent data (in case parameters have changed)
                 self.log.warning('can not restore %r to %r (%r)', pname, value, e)
